@@ -3,6 +3,8 @@ from . import serial, bytesacct
 
 
 def run(ctx):
+    from . import c19
+    c19.rule_serving_is_readonly(ctx)     # R19.4: writing a snapshot leaves the simulation as it was
     serial.rule_inert_members(ctx)
     serial.rule_scratch_reset(ctx)
     serial.rule_scratch_conditions(ctx)
